@@ -48,7 +48,9 @@ func c03Script(c c03Case) string {
 			fmt.Fprintf(&b, "S%d {cap($%s)}\n", i, st.Var)
 		}
 	}
-	b.WriteString("===\n")
+	// the node jumps back to itself: the harness runs the history twice, so that every statement node is
+	// executed twice on one runner (a statement must not depend on having been executed before)
+	b.WriteString("<<jump Start>>\n===\n")
 	return b.String()
 }
 
@@ -150,105 +152,111 @@ func runC03(c c03Case) Verdict {
 	}
 	failures, hostTypeChanges, compoundOnExisting := 0, 0, 0
 	var cls []string
-	for i, st := range c.Steps {
-		writesBefore := 0
-		if rec != nil {
-			writesBefore = len(rec.writes())
-		}
-		switch st.K {
-		case "host-set":
-			v := *st.Val
-			v.fix()
-			if prev, ok := m.store[st.Var]; ok && prev.T != v.T {
-				hostTypeChanges++
+	passes := 2
+	if len(c.Steps) > 0 && !hasScriptStep(c) {
+		passes = 1
+	}
+	for pass := 0; pass < passes; pass++ {
+		for i, st := range c.Steps {
+			writesBefore := 0
+			if rec != nil {
+				writesBefore = len(rec.writes())
 			}
-			m.store[st.Var] = v
-			switch v.T {
-			case 'n':
-				storer.SetNumberValue(st.Var, v.N)
-			case 'b':
-				storer.SetBooleanValue(st.Var, v.B)
-			case 's':
-				storer.SetStringValue(st.Var, v.S)
-			}
-		case "host-read":
-			got, ok := storer.GetValue(st.Var)
-			want, wok := m.store[st.Var]
-			if ok != wok || (ok && !sameVal(toMval(got), want)) {
-				return failf("host read of $%s gives %v (present=%v), want %v (present=%v): %s", st.Var, toMval(got), ok, want, wok, describe(i))
-			}
-		case "set", "declare":
-			prev, existed := m.store[st.Var]
-			_ = prev
-			if st.K == "set" && st.Op != "=" && existed {
-				compoundOnExisting++
-			}
-			cls = append(cls, fmt.Sprintf("op%s", st.Op))
-			merr := m.assign(st.Var, st.Op, st.E)
-			kind, text := next()
-			if kind == "panic" {
+			switch st.K {
+			case "host-set":
+				v := *st.Val
+				v.fix()
+				if prev, ok := m.store[st.Var]; ok && prev.T != v.T {
+					hostTypeChanges++
+				}
+				m.store[st.Var] = v
+				switch v.T {
+				case 'n':
+					storer.SetNumberValue(st.Var, v.N)
+				case 'b':
+					storer.SetBooleanValue(st.Var, v.B)
+				case 's':
+					storer.SetStringValue(st.Var, v.S)
+				}
+			case "host-read":
+				got, ok := storer.GetValue(st.Var)
+				want, wok := m.store[st.Var]
+				if ok != wok || (ok && !sameVal(toMval(got), want)) {
+					return failf("host read of $%s gives %v (present=%v), want %v (present=%v): %s", st.Var, toMval(got), ok, want, wok, describe(i))
+				}
+			case "set", "declare":
+				prev, existed := m.store[st.Var]
+				_ = prev
+				if st.K == "set" && st.Op != "=" && existed {
+					compoundOnExisting++
+				}
+				cls = append(cls, fmt.Sprintf("op%s", st.Op))
+				merr := m.assign(st.Var, st.Op, st.E)
+				kind, text := next()
+				if kind == "panic" {
+					if merr != nil {
+						return Verdict{Discard: "panic on a failing statement (C06)"}
+					}
+					return failf("Next panicked: %s: %s", text, describe(i))
+				}
 				if merr != nil {
-					return Verdict{Discard: "panic on a failing statement (C06)"}
+					failures++
+					if kind != "err" {
+						return failf("the statement must fail (%v) but Next returned %s %q: %s", merr, kind, text, describe(i))
+					}
+					if rec != nil && len(rec.writes()) != writesBefore {
+						return failf("a failing statement wrote to the storer: %v: %s", rec.writes()[writesBefore:], describe(i))
+					}
+					if kind, text = next(); kind != "line" || text != fmt.Sprintf("M%d", i) {
+						return Verdict{Discard: "after an error the runner did not continue at the next statement"}
+					}
+				} else {
+					if kind == "err" {
+						return failf("the statement must succeed but Next failed: %s: %s", text, describe(i))
+					}
+					if kind != "line" || text != fmt.Sprintf("M%d", i) {
+						return failf("expected the marker line M%d, got %s %q: %s", i, kind, text, describe(i))
+					}
+					if rec != nil {
+						w := rec.writes()[writesBefore:]
+						if len(w) != 1 || !strings.HasPrefix(w[0], "set "+st.Var+" ") {
+							return failf("a successful assignment to $%s must write exactly that variable once, storer saw %v: %s", st.Var, w, describe(i))
+						}
+					}
 				}
-				return failf("Next panicked: %s: %s", text, describe(i))
-			}
-			if merr != nil {
-				failures++
-				if kind != "err" {
-					return failf("the statement must fail (%v) but Next returned %s %q: %s", merr, kind, text, describe(i))
+			case "show":
+				want, ok := m.store[st.Var]
+				captured = nil
+				kind, text := next()
+				if kind == "panic" {
+					return failf("Next panicked: %s: %s", text, describe(i))
 				}
-				if rec != nil && len(rec.writes()) != writesBefore {
-					return failf("a failing statement wrote to the storer: %v: %s", rec.writes()[writesBefore:], describe(i))
-				}
-				if kind, text = next(); kind != "line" || text != fmt.Sprintf("M%d", i) {
-					return Verdict{Discard: "after an error the runner did not continue at the next statement"}
-				}
-			} else {
-				if kind == "err" {
-					return failf("the statement must succeed but Next failed: %s: %s", text, describe(i))
-				}
-				if kind != "line" || text != fmt.Sprintf("M%d", i) {
-					return failf("expected the marker line M%d, got %s %q: %s", i, kind, text, describe(i))
-				}
-				if rec != nil {
-					w := rec.writes()[writesBefore:]
-					if len(w) != 1 || !strings.HasPrefix(w[0], "set "+st.Var+" ") {
-						return failf("a successful assignment to $%s must write exactly that variable once, storer saw %v: %s", st.Var, w, describe(i))
+				if !ok {
+					if kind != "err" {
+						return failf("reading the unknown variable $%s must fail, got %s %q: %s", st.Var, kind, text, describe(i))
+					}
+				} else {
+					if kind != "line" || len(captured) != 1 {
+						return failf("expected a line showing $%s, got %s %q: %s", st.Var, kind, text, describe(i))
+					}
+					if !sameVal(captured[0], want) {
+						return failf("the script read $%s = %v, the last value assigned or written by the host is %v: %s", st.Var, captured[0], want, describe(i))
 					}
 				}
 			}
-		case "show":
-			want, ok := m.store[st.Var]
-			captured = nil
-			kind, text := next()
-			if kind == "panic" {
-				return failf("Next panicked: %s: %s", text, describe(i))
+			if rec != nil {
+				rec.mute = true
 			}
-			if !ok {
-				if kind != "err" {
-					return failf("reading the unknown variable $%s must fail, got %s %q: %s", st.Var, kind, text, describe(i))
-				}
-			} else {
-				if kind != "line" || len(captured) != 1 {
-					return failf("expected a line showing $%s, got %s %q: %s", st.Var, kind, text, describe(i))
-				}
-				if !sameVal(captured[0], want) {
-					return failf("the script read $%s = %v, the last value assigned or written by the host is %v: %s", st.Var, captured[0], want, describe(i))
-				}
+			view, problem := storeView(storer, c03Vars)
+			if rec != nil {
+				rec.mute = false
 			}
-		}
-		if rec != nil {
-			rec.mute = true
-		}
-		view, problem := storeView(storer, c03Vars)
-		if rec != nil {
-			rec.mute = false
-		}
-		if problem != "" {
-			return failf("%s after %s", problem, describe(i))
-		}
-		if d := sameStore(m.store, view); d != "" {
-			return failf("storer content differs from the model (model vs storer): %s after %s", d, describe(i))
+			if problem != "" {
+				return failf("%s after %s", problem, describe(i))
+			}
+			if d := sameStore(m.store, view); d != "" {
+				return failf("storer content differs from the model (model vs storer): %s after %s (pass %d over the history)", d, describe(i), pass+1)
+			}
 		}
 	}
 	cls = append(cls, "storer="+c.Storer)
@@ -259,6 +267,15 @@ func runC03(c c03Case) Verdict {
 		cls = append(cls, "failing-statement")
 	}
 	return Verdict{NonTrivial: compoundOnExisting >= 1 && (failures >= 1 || hostTypeChanges >= 1 || hasHostWrite(c)), Classes: cls}
+}
+
+func hasScriptStep(c c03Case) bool {
+	for _, s := range c.Steps {
+		if s.K == "set" || s.K == "declare" || s.K == "show" {
+			return true
+		}
+	}
+	return false
 }
 
 func hasHostWrite(c c03Case) bool {
